@@ -166,4 +166,440 @@ theorem first_match_or_none (c : Dec) (bs : List (Range × PV)) :
         · exact hr'
         · exact h2 y hy
 
+/-! ### Characters of accepted numerals, trimming -/
+
+theorem isDigit_iff (c : Char) : isDigit c = true ↔ 48 ≤ c.toNat ∧ c.toNat ≤ 57 := by
+  simp [isDigit, Char.le_def, UInt32.le_iff_toNat_le]
+
+theorem isDigit_not_ws (c : Char) (h : isDigit c = true) : isWs c = false := by
+  rw [isDigit_iff] at h
+  simp [isWs]
+  omega
+
+theorem dropWhile_eq_self {p : Char → Bool} : ∀ (s : Str), (∀ c ∈ s, p c = false) → s.dropWhile p = s
+  | [], _ => rfl
+  | c :: cs, h => by simp [List.dropWhile, h c (by simp)]
+
+theorem trim_eq_self (s : Str) (h : ∀ c ∈ s, isWs c = false) : trim s = s := by
+  simp only [trim, trimStart, trimEnd]
+  rw [dropWhile_eq_self s h, dropWhile_eq_self s.reverse (by simpa using h), List.reverse_reverse]
+
+/-- characters of a string `parseDigits` accepts -/
+theorem parseDigits_some {s : Str} {n : Nat} (h : parseDigits s = some n) :
+    s ≠ [] ∧ ∀ c ∈ s, isDigit c = true := by
+  simp only [parseDigits] at h
+  split at h
+  · simp at h
+  · rename_i hc
+    simp at hc
+    exact ⟨hc.1, hc.2⟩
+
+/-- a character of an accepted integer numeral: a digit or a sign -/
+def numChar (c : Char) : Bool := isDigit c || c == '-' || c == '+'
+
+
+
+theorem parseInt_some {t : RangeTy} {s : Str} {v : Int} (h : parseInt t s = some v) :
+    s ≠ [] ∧ (∀ c ∈ s, numChar c = true) ∧ t.inRange v = true := by
+  unfold parseInt at h
+  split at h
+  rename_i x neg digits heq
+  simp only at h
+  by_cases hs : (neg && !decide (t.min < 0)) = true
+  · simp [hs] at h
+  · cases hpd : parseDigits digits with
+    | none => simp [hs, hpd] at h
+    | some n =>
+      have ⟨hne, hall⟩ := parseDigits_some hpd
+      simp only [hs, hpd] at h
+      by_cases hr : t.inRange (if neg = true then -(n : Int) else n) = true
+      · simp only [hr, if_true] at h
+        simp only [Bool.false_eq_true, if_false, Option.some.injEq] at h
+        subst h
+        refine ⟨?_, ?_, hr⟩
+        · split at heq <;> simp_all
+        · split at heq
+          · simp only [Prod.mk.injEq] at heq
+            obtain ⟨_, rfl⟩ := heq
+            intro c hc
+            rcases List.mem_cons.mp hc with rfl | hc
+            · simp [numChar]
+            · simp [numChar, hall c hc]
+          · simp only [Prod.mk.injEq] at heq
+            obtain ⟨_, rfl⟩ := heq
+            intro c hc
+            rcases List.mem_cons.mp hc with rfl | hc
+            · simp [numChar]
+            · simp [numChar, hall c hc]
+          · simp only [Prod.mk.injEq] at heq
+            obtain ⟨_, rfl⟩ := heq
+            intro c hc
+            simp [numChar, hall c hc]
+      · simp [hr] at h
+
+/-! ### `split_once("..")` and `Range::new` on numerals -/
+
+/-- if the first char of `pat` does not occur in `t`, the first match of `pat` in `t ++ pat ++ r` is right after `t` -/
+theorem splitOnce_append (p : Char) (ps t r : Str) (h : p ∉ t) :
+    splitOnce (p :: ps) (t ++ ((p :: ps) ++ r)) = some (t, r) := by
+  induction t with
+  | nil =>
+    simp [splitOnce]
+  | cons c cs ih =>
+    have hc : c ≠ p := by intro e; apply h; simp [e]
+    have hcs : p ∉ cs := by intro e; apply h; simp [e]
+    simp only [List.cons_append, splitOnce]
+    have : ¬ (p :: ps).isPrefixOf (c :: (cs ++ (p :: (ps ++ r)))) = true := by
+      simp [List.isPrefixOf]; intro e; exact absurd e.symm hc
+    rw [if_neg this]
+    have ih' := ih hcs
+    simp only [List.cons_append] at ih'
+    rw [ih']
+
+theorem splitOnce_none (p : Char) (ps t : Str) (h : p ∉ t) :
+    splitOnce (p :: ps) t = none := by
+  induction t with
+  | nil => simp [splitOnce]
+  | cons c cs ih =>
+    have hc : c ≠ p := by intro e; apply h; simp [e]
+    have hcs : p ∉ cs := by intro e; apply h; simp [e]
+    simp only [splitOnce]
+    have : ¬ (p :: ps).isPrefixOf (c :: cs) = true := by
+      simp [List.isPrefixOf]; intro e; exact absurd e.symm hc
+    rw [if_neg this, ih hcs]
+
+theorem numChar_facts {c : Char} (h : numChar c = true) : c ≠ '.' ∧ c ≠ '=' ∧ isWs c = false ∧ c ≠ '|' ∧ c ≠ '_' := by
+  simp only [numChar, Bool.or_eq_true, beq_iff_eq] at h
+  rcases h with (h | rfl) | rfl
+  · refine ⟨?_, ?_, isDigit_not_ws c h, ?_, ?_⟩ <;> (rintro rfl; simp [isDigit] at h)
+  · decide
+  · decide
+
+theorem numStr_trim {s : Str} (h : ∀ c ∈ s, numChar c = true) : trim s = s :=
+  trim_eq_self s (fun c hc => (numChar_facts (h c hc)).2.2.1)
+
+theorem numStr_no_dot {s : Str} (h : ∀ c ∈ s, numChar c = true) : '.' ∉ s :=
+  fun hm => (numChar_facts (h _ hm)).1 rfl
+
+/-- `newSimple` on a string whose first `..` separates two accepted numerals, exclusive end -/
+theorem newSimple_excl (t : RangeTy) (s p q : Str) (x y : Dec)
+    (hs : splitOnce "..".toList s = some (p, q))
+    (hp : trim p ≠ []) (hx : parseNum t (trim p) = some x)
+    (hq : trim q ≠ []) (hq' : stripPrefix ['='] (trim q) = none) (hy : parseNum t (trim q) = some y) :
+    newSimple t s =
+      match rangeEndBound t y with
+      | none => .err "InvalidBoundEnd"
+      | some b =>
+        if (match b with
+            | .excl e => Dec.le e x
+            | .incl e => Dec.lt e x
+            | .unb => false) then .err "ImpossibleRange"
+        else .ok (.bounds (some x) b) := by
+  have hp' : (trim p).isEmpty = false := by cases h : trim p <;> simp_all
+  have hq'' : (trim q).isEmpty = false := by cases h : trim q <;> simp_all
+  simp only [newSimple, hs, hp', hx, hq'', hq', hy]
+  cases rangeEndBound t y with
+  | none => simp
+  | some b => cases b <;> simp
+
+theorem parseNum_int {t : RangeTy} (ht : t.isFloat = false) (s : Str) :
+    parseNum t s = (parseInt t s).map Dec.ofInt := by simp [parseNum, ht]
+
+theorem rangeEndBound_int {t : RangeTy} (ht : t.isFloat = false) (v : Dec) :
+    rangeEndBound t v = if t.min ≤ v.m - 1 then some (.incl (Dec.ofInt (v.m - 1))) else none := by
+  simp only [rangeEndBound, ht, Dec.ofInt]
+  by_cases h : v.m - 1 < t.min
+  · have : ¬ t.min ≤ v.m - 1 := by omega
+    simp [h, this]
+  · have : t.min ≤ v.m - 1 := by omega
+    simp [h, this]
+
+theorem stripPrefix_ne {c d : Char} {s : Str} (h : c ≠ d) : stripPrefix [d] (c :: s) = none := by
+  have : ¬ d = c := fun e => h e.symm
+  simp [stripPrefix, List.isPrefixOf, this]
+
+theorem newSimple_int_excl (t : RangeTy) (ht : t.isFloat = false) (a b : Str) (x y : Int)
+    (ha : parseInt t a = some x) (hb : parseInt t b = some y) :
+    newSimple t (a ++ ("..".toList ++ b)) =
+      if y = t.min then .err "InvalidBoundEnd"
+      else if y ≤ x then .err "ImpossibleRange"
+      else .ok (.bounds (some (Dec.ofInt x)) (.incl (Dec.ofInt (y - 1)))) := by
+  obtain ⟨ha1, ha2, _⟩ := parseInt_some ha
+  obtain ⟨hb1, hb2, hb3⟩ := parseInt_some hb
+  have hs : splitOnce "..".toList (a ++ ("..".toList ++ b)) = some (a, b) :=
+    splitOnce_append '.' ['.'] a b (numStr_no_dot ha2)
+  have hta := numStr_trim ha2
+  have htb := numStr_trim hb2
+  have hq' : stripPrefix ['='] (trim b) = none := by
+    rw [htb]
+    cases b with
+    | nil => exact absurd rfl hb1
+    | cons c cs => exact stripPrefix_ne (numChar_facts (hb2 c (by simp))).2.1
+  rw [newSimple_excl t _ a b (Dec.ofInt x) (Dec.ofInt y) hs (by rwa [hta]) (by rw [hta, parseNum_int ht, ha]; rfl)
+    (by rwa [htb]) hq' (by rw [htb, parseNum_int ht, hb]; rfl)]
+  rw [rangeEndBound_int ht]
+  simp only [RangeTy.inRange, Bool.and_eq_true, decide_eq_true_eq] at hb3
+  simp only [Dec.ofInt]
+  by_cases h1 : y = t.min
+  · subst h1
+    have : ¬ t.min ≤ t.min - 1 := by omega
+    simp [this]
+  · have : t.min ≤ y - 1 := by omega
+    simp only [this, if_true, h1, if_false]
+    by_cases h2 : y ≤ x
+    · have : y - 1 < x := by omega
+      simp [Dec.lt, h2, this]
+    · have : ¬ y - 1 < x := by omega
+      simp [Dec.lt, h2, this]
+
+theorem stripPrefix_some_ne {d : Char} {s e : Str} (h : stripPrefix [d] s = some e) : s.isEmpty = false := by
+  cases s with
+  | nil => simp [stripPrefix, List.isPrefixOf] at h
+  | cons c cs => rfl
+
+/-- `p..=q` with both numerals accepted -/
+theorem newSimple_incl (t : RangeTy) (s p q e : Str) (x y : Dec)
+    (hs : splitOnce "..".toList s = some (p, q))
+    (hp : trim p ≠ []) (hx : parseNum t (trim p) = some x)
+    (hq : stripPrefix ['='] (trim q) = some e) (hy : parseNum t (trimStart e) = some y) :
+    newSimple t s = if Dec.lt y x then .err "ImpossibleRange" else .ok (.bounds (some x) (.incl y)) := by
+  have hp' : (trim p).isEmpty = false := by cases h : trim p <;> simp_all
+  simp only [newSimple, hs, hp', hx, stripPrefix_some_ne hq, hq, hy]
+  simp
+
+/-- `p..` -/
+theorem newSimple_from (t : RangeTy) (s p q : Str) (x : Dec)
+    (hs : splitOnce "..".toList s = some (p, q))
+    (hp : trim p ≠ []) (hx : parseNum t (trim p) = some x) (hq : trim q = []) :
+    newSimple t s = .ok (.bounds (some x) .unb) := by
+  have hp' : (trim p).isEmpty = false := by cases h : trim p <;> simp_all
+  simp only [newSimple, hs, hp', hx, hq]
+  simp
+
+/-- `..q` -/
+theorem newSimple_to_excl (t : RangeTy) (s p q : Str) (y : Dec)
+    (hs : splitOnce "..".toList s = some (p, q)) (hp : trim p = [])
+    (hq : trim q ≠ []) (hq' : stripPrefix ['='] (trim q) = none) (hy : parseNum t (trim q) = some y) :
+    newSimple t s =
+      match rangeEndBound t y with
+      | none => .err "InvalidBoundEnd"
+      | some b => .ok (.bounds none b) := by
+  have hq'' : (trim q).isEmpty = false := by cases h : trim q <;> simp_all
+  simp only [newSimple, hs, hp, hq'', hq', hy]
+  cases rangeEndBound t y with
+  | none => simp
+  | some b => cases b <;> simp
+
+/-- `..=q` -/
+theorem newSimple_to_incl (t : RangeTy) (s p q e : Str) (y : Dec)
+    (hs : splitOnce "..".toList s = some (p, q)) (hp : trim p = [])
+    (hq : stripPrefix ['='] (trim q) = some e) (hy : parseNum t (trimStart e) = some y) :
+    newSimple t s = .ok (.bounds none (.incl y)) := by
+  simp only [newSimple, hs, hp, stripPrefix_some_ne hq, hq, hy]
+  simp
+
+/-- a numeral alone -/
+theorem newSimple_exact (t : RangeTy) (s : Str) (x : Dec)
+    (hs : splitOnce "..".toList s = none) (hx : parseNum t s = some x) :
+    newSimple t s = .ok (.exact x) := by
+  simp only [newSimple, hs, hx]
+
+theorem trimStart_eq_self (s : Str) (h : ∀ c ∈ s, isWs c = false) : trimStart s = s :=
+  dropWhile_eq_self s h
+
+theorem newSimple_int_incl (t : RangeTy) (ht : t.isFloat = false) (a b : Str) (x y : Int)
+    (ha : parseInt t a = some x) (hb : parseInt t b = some y) :
+    newSimple t (a ++ ("..=".toList ++ b)) =
+      if y < x then .err "ImpossibleRange"
+      else .ok (.bounds (some (Dec.ofInt x)) (.incl (Dec.ofInt y))) := by
+  obtain ⟨ha1, ha2, _⟩ := parseInt_some ha
+  obtain ⟨hb1, hb2, hb3⟩ := parseInt_some hb
+  have hs : splitOnce "..".toList (a ++ ("..=".toList ++ b)) = some (a, '=' :: b) :=
+    splitOnce_append '.' ['.'] a ('=' :: b) (numStr_no_dot ha2)
+  have hta := numStr_trim ha2
+  have htb : trim ('=' :: b) = '=' :: b := by
+    apply trim_eq_self
+    intro c hc
+    rcases List.mem_cons.mp hc with rfl | hc
+    · decide
+    · exact (numChar_facts (hb2 c hc)).2.2.1
+  have htb' : trimStart b = b := trimStart_eq_self b (fun c hc => (numChar_facts (hb2 c hc)).2.2.1)
+  rw [newSimple_incl t _ a ('=' :: b) b (Dec.ofInt x) (Dec.ofInt y) hs (by rwa [hta])
+    (by rw [hta, parseNum_int ht, ha]; rfl) (by rw [htb]; simp [stripPrefix, List.isPrefixOf])
+    (by rw [htb', parseNum_int ht, hb]; rfl)]
+  simp [dec_lt_ofInt]
+
+theorem newSimple_int_from (t : RangeTy) (ht : t.isFloat = false) (a : Str) (x : Int)
+    (ha : parseInt t a = some x) :
+    newSimple t (a ++ "..".toList) = .ok (.bounds (some (Dec.ofInt x)) .unb) := by
+  obtain ⟨ha1, ha2, _⟩ := parseInt_some ha
+  have hs : splitOnce "..".toList (a ++ ("..".toList ++ [])) = some (a, []) :=
+    splitOnce_append '.' ['.'] a [] (numStr_no_dot ha2)
+  rw [List.append_nil] at hs
+  have hta := numStr_trim ha2
+  exact newSimple_from t _ a [] (Dec.ofInt x) hs (by rwa [hta]) (by rw [hta, parseNum_int ht, ha]; rfl) rfl
+
+theorem newSimple_int_to_excl (t : RangeTy) (ht : t.isFloat = false) (b : Str) (y : Int)
+    (hb : parseInt t b = some y) :
+    newSimple t ("..".toList ++ b) =
+      if y = t.min then .err "InvalidBoundEnd" else .ok (.bounds none (.incl (Dec.ofInt (y - 1)))) := by
+  obtain ⟨hb1, hb2, hb3⟩ := parseInt_some hb
+  have hs : splitOnce "..".toList ([] ++ ("..".toList ++ b)) = some ([], b) :=
+    splitOnce_append '.' ['.'] [] b (by simp)
+  rw [List.nil_append] at hs
+  have htb := numStr_trim hb2
+  have hq' : stripPrefix ['='] (trim b) = none := by
+    rw [htb]
+    cases b with
+    | nil => exact absurd rfl hb1
+    | cons c cs => exact stripPrefix_ne (numChar_facts (hb2 c (by simp))).2.1
+  rw [newSimple_to_excl t _ [] b (Dec.ofInt y) hs rfl (by rwa [htb]) hq' (by rw [htb, parseNum_int ht, hb]; rfl)]
+  rw [rangeEndBound_int ht]
+  simp only [RangeTy.inRange, Bool.and_eq_true, decide_eq_true_eq] at hb3
+  simp only [Dec.ofInt]
+  by_cases h1 : y = t.min
+  · subst h1
+    have : ¬ t.min ≤ t.min - 1 := by omega
+    simp [this]
+  · have : t.min ≤ y - 1 := by omega
+    simp [this, h1]
+
+theorem newSimple_int_to_incl (t : RangeTy) (ht : t.isFloat = false) (b : Str) (y : Int)
+    (hb : parseInt t b = some y) :
+    newSimple t ("..=".toList ++ b) = .ok (.bounds none (.incl (Dec.ofInt y))) := by
+  obtain ⟨hb1, hb2, hb3⟩ := parseInt_some hb
+  have hs : splitOnce "..".toList ([] ++ ("..".toList ++ ('=' :: b))) = some ([], '=' :: b) :=
+    splitOnce_append '.' ['.'] [] ('=' :: b) (by simp)
+  have htb : trim ('=' :: b) = '=' :: b := by
+    apply trim_eq_self
+    intro c hc
+    rcases List.mem_cons.mp hc with rfl | hc
+    · decide
+    · exact (numChar_facts (hb2 c hc)).2.2.1
+  have htb' : trimStart b = b := trimStart_eq_self b (fun c hc => (numChar_facts (hb2 c hc)).2.2.1)
+  exact newSimple_to_incl t _ [] ('=' :: b) b (Dec.ofInt y) hs rfl
+    (by rw [htb]; simp [stripPrefix, List.isPrefixOf]) (by rw [htb', parseNum_int ht, hb]; rfl)
+
+theorem newSimple_int_exact (t : RangeTy) (ht : t.isFloat = false) (a : Str) (x : Int)
+    (ha : parseInt t a = some x) : newSimple t a = .ok (.exact (Dec.ofInt x)) := by
+  obtain ⟨ha1, ha2, _⟩ := parseInt_some ha
+  exact newSimple_exact t a (Dec.ofInt x) (splitOnce_none '.' ['.'] a (numStr_no_dot ha2))
+    (by rw [parseNum_int ht, ha]; rfl)
+
+/-- `Range::new` on a string without blanks, `|`, `_` that is not `..` is its non-`|` part -/
+theorem new_eq_newSimple (t : RangeTy) (s : Str)
+    (h : ∀ c ∈ s, isWs c = false ∧ c ≠ '|' ∧ c ≠ '_') (hdd : s ≠ "..".toList) :
+    Ranges.new t s = newSimple t s := by
+  have ht : trim s = s := trim_eq_self s (fun c hc => (h c hc).1)
+  have h1 : (s == ['_']) = false := by
+    cases hs : s == ['_']
+    · rfl
+    · simp only [beq_iff_eq] at hs
+      exact absurd rfl (h '_' (by simp [hs])).2.2
+  have h2 : (s == "..".toList) = false := by simpa using hdd
+  have h3 : Str.contains '|' s = false := by
+    simp only [Str.contains, List.any_eq_false, beq_iff_eq]
+    intro c hc e
+    exact (h c hc).2.1 e
+  simp only [Ranges.new, ht, h1, h2, h3]
+  simp
+
+
+/-! ### flatten -/
+theorem flatten_multi (l : List Range) :
+    flatten (.multi l) = if l.any isFallback then .fallback else .multi l := by
+  simp only [flatten]
+  congr 2
+
+theorem isFallback_iff (r : Range) : isFallback r = true ↔ r = .fallback := by
+  cases r <;> simp [isFallback]
+
+theorem doMatch_flatten (r : Range) (n : Dec) : doMatch (flatten r) n = doMatch r n := by
+  cases r with
+  | multi l =>
+    rw [flatten_multi]
+    by_cases h : l.any isFallback = true
+    · rw [if_pos h]
+      simp only [doMatch, doMatchAny_eq_any]
+      obtain ⟨x, hx, hf⟩ := List.any_eq_true.mp h
+      rw [isFallback_iff] at hf
+      subst hf
+      symm
+      exact List.any_eq_true.mpr ⟨.fallback, hx, by simp [doMatch]⟩
+    · rw [if_neg h]
+  | _ => rfl
+
+/-! ### `|` -/
+theorem new_go (t : RangeTy) : ∀ (ps : List Str) (acc rs : List Range),
+    ps.mapM (fun p => match newPiece t p with | .ok r => some r | _ => none) = some rs →
+    Ranges.new.go t ps acc = .ok (flatten (.multi (acc.reverse ++ rs)))
+  | [], acc, rs, h => by
+    simp at h; subst h; simp [Ranges.new.go]
+  | p :: ps, acc, rs, h => by
+    simp only [List.mapM_cons] at h
+    cases hp : newPiece t p with
+    | ok r =>
+      simp only [hp] at h
+      cases hm : ps.mapM (fun p => match newPiece t p with | .ok r => some r | _ => none) with
+      | none => simp [hm] at h
+      | some rs' =>
+        simp [hm] at h
+        subst h
+        simp only [Ranges.new.go, hp]
+        rw [new_go t ps (r :: acc) rs' hm]
+        simp
+    | err e => simp [hp] at h
+    | panic e => simp [hp] at h
+
+/-! ### `check_de_inner` -/
+/-- a fallback, or a `|`/list specification with a fallback among its alternatives -/
+def containsFallback : Range → Bool
+  | .fallback => true
+  | .multi l => l.any isFallback
+  | _ => false
+
+theorem checkDe_nil : checkDe [] = (false, 0) := by simp [checkDe]
+
+theorem checkDe_snoc (init : List Range) (last : Range) :
+    checkDe (init ++ [last]) = (init.any containsFallback, (init.filter isFallback).length + (if isFallback last then 1 else 0)) := by
+  simp only [checkDe, List.reverse_append, List.reverse_cons, List.reverse_nil, List.nil_append,
+    List.cons_append, List.drop_succ_cons, List.drop_zero, List.any_reverse, List.filter_append, List.length_append]
+  congr 2
+  cases h : isFallback last <;> simp [List.filter, h]
+
+open Decode in
+theorem rangeSeq_single (t : RangeTy) (c : J) : rangeSpec.rangeSeq t [c] = rangeSpec t c := by
+  simp only [rangeSpec.rangeSeq, rangeSpec.rangeList]
+  cases rangeSpec t c <;> rfl
+
+open Decode in
+theorem rangeList_length (t : RangeTy) : ∀ (cs : List J) (rs : List Range),
+    rangeSpec.rangeList t cs = .ok rs → rs.length = cs.length
+  | [], rs, h => by simp [rangeSpec.rangeList] at h; subst h; rfl
+  | c :: cs, rs, h => by
+    simp only [rangeSpec.rangeList] at h
+    cases hc : rangeSpec t c with
+    | ok r =>
+      simp only [hc] at h
+      cases hl : rangeSpec.rangeList t cs with
+      | ok rs' =>
+        simp only [hl] at h
+        injection h with h
+        subst h
+        simp [rangeList_length t cs rs' hl]
+      | err e => simp [hl] at h
+      | panic e => simp [hl] at h
+    | err e => simp [hc] at h
+    | panic e => simp [hc] at h
+
+open Decode in
+theorem rangeSeq_multi (t : RangeTy) (c c' : J) (cs : List J) (f : Range) (rs : List Range)
+    (hf : rangeSpec t c = .ok f) (hrs : rangeSpec.rangeList t (c' :: cs) = .ok rs) :
+    rangeSpec.rangeSeq t (c :: c' :: cs) = .ok (.multi (rs ++ [f])) := by
+  have hl := rangeList_length t _ _ hrs
+  simp only [rangeSpec.rangeSeq, hf, hrs]
+  cases rs with
+  | nil => simp at hl
+  | cons r rs => rfl
+
 end I18nVerif.Ranges
